@@ -424,6 +424,10 @@ func (t *streamableHTTPClientTransport) handleSSEResponse(
 	reqID interface{},
 	options *streamOptions,
 ) (*json.RawMessage, error) {
+	// The stream belongs to this call: release the connection on every return path,
+	// also when the call returns at its result while the server keeps the stream open.
+	defer httpResp.Body.Close()
+
 	reader := bufio.NewReader(httpResp.Body)
 	var rawResult *json.RawMessage
 	var resultReceived bool
